@@ -328,6 +328,22 @@ for _p in ("C01", "C05", "C06", "C10", "C11", "C13", "C15"):
     PLANS[_p]["rule"] += _SCL_RULE
     PLANS[_p]["min_counts"]["quick"].update({"sclosure.states": 300000})
     PLANS[_p]["min_counts"]["thorough"].update({"sclosure.states": 5000000})
+# large buffers: bursts of hundreds of characters / moves / deletions / tokens / submitted lines / recall steps in buffers of 200..1100 bytes
+_LARGE_RULE = (" Large-buffer stage: 2.4k (quick) / 60k (thorough) sessions in command and history buffers of 200..1100 bytes (254..258, 510..513, 1023, 1024 over-represented), prompts of up to 262 characters / 655 bytes, "
+               "made of bursts of 1..530 repetitions (characters of every encoded length, Left, Right, Backspace, Up, Down, tokens of every kind, distinct submitted lines, one long application text), "
+               "so that line lengths, cursor positions, token counts, stored-entry counts and offsets and terminal columns cross 255 / 256, 511 / 512 and 1023 / 1024 under the same monitors.")
+for _p in ("C01", "C05", "C06", "C10", "C13", "C15"):
+    PLANS[_p]["stages"].append({"variant": "dbg", "workload": _p + "-large"})
+    PLANS[_p]["rule"] += _LARGE_RULE
+    PLANS[_p]["min_counts"]["quick"].update({"large.calls_with_line_over_255_bytes": 300000, "large.calls_with_cursor_over_255": 100000, "large.calls_with_column_over_255": 300000})
+    PLANS[_p]["min_counts"]["thorough"].update({"large.calls_with_line_over_255_bytes": 7000000, "large.calls_with_cursor_over_255": 2500000, "large.calls_with_column_over_255": 7000000})
+PLANS["C10"]["min_counts"]["quick"].update({"large.enters_with_over_255_stored_entries": 10000})
+PLANS["C10"]["min_counts"]["thorough"].update({"large.enters_with_over_255_stored_entries": 500000})
+PLANS["C01"]["min_counts"]["quick"].update({"large.dispatches_with_over_255_items": 10})
+PLANS["C01"]["min_counts"]["thorough"].update({"large.dispatches_with_over_255_items": 300})
+_C03_STAGES.insert(3, {"variant": "dbg", "workload": "C03-large"})
+_C03_STAGES.insert(6, {"variant": "asan", "workload": "C03-large", "args_quick": ["--scale", "0.25"], "args_thorough": ["--scale", "0.1"]})
+PLANS["C03"]["rule"] += _LARGE_RULE
 PLANS["C16"]["rule"] += " The session-closure stage of C01/C05/... also runs in each of the eight builds (a quarter of the state budget) under that build's models."
 
 # ---------------------------------------------------------------- generated declarations (C09, C11 stage 2, C12)
